@@ -50,3 +50,5 @@ func verifEnvEnd()                          { panic("verif intrinsic") }
 func verifRepeat() int                      { panic("verif intrinsic") }
 func verifStubValue[T any](name string) (T, bool) { panic("verif intrinsic") }
 func verifOnRoute(msg sdk.Msg, h func(ctx context.Context, msg sdk.Msg) (*sdk.Result, error)) { panic("verif intrinsic") }
+
+func verifSymQtyU64(name string) uint64 { panic("verif intrinsic") }
